@@ -194,6 +194,12 @@ class Scenario:
                 return [(o[0].implies(o[1]), tt.c_implies(t[0], t[1], n))]
             return [(o[0].equiv(o[1]), tt.c_equiv(t[0], t[1], n))]
         if e == 'ite':
+            if ar and a2 & 2:
+                # operands that nothing else references (computed in the
+                # argument list): the callee has to keep them alive
+                return [(m.ite(o[0] | ~o[1], o[1] & o[2], o[2].equiv(o[0])),
+                         tt.ite((t[0] | ~t[1]) & F, t[1] & t[2],
+                                ~(t[2] ^ t[0]) & F, n))]
             return [(m.ite(o[0], o[1], o[2]),
                      tt.ite(t[0], t[1], t[2], n))]
         if e == 'quantify':
@@ -238,6 +244,13 @@ class Scenario:
             d = {nm[j]: o[1 + i % 2] for i, j in enumerate(keys)}
             want = tt.compose(t[0], n, {j: t[1 + i % 2]
                                         for i, j in enumerate(keys)})
+            if ar and a2 & 2:
+                # replacement functions that only the dict holds
+                want = tt.compose(t[0], n, {
+                    j: (~t[1 + i % 2] | t[0]) & F
+                    for i, j in enumerate(keys)})
+                return [(m.let({nm[j]: o[1 + i % 2].implies(o[0])
+                                for i, j in enumerate(keys)}, o[0]), want)]
             return [(m.let(d, o[0]), want)]
         if e == 'let_rename':
             keys = [j for j in range(n) if (a1 >> j) & 1] or [0]
